@@ -243,6 +243,7 @@ struct Th {
     stale: u32,
     quiet: u32,
     call: Option<CallInfo>,
+    call_depth: u32,
     tls: Vec<TlsEntry>,
     tls_torn: bool,
     yielder: *const (),
@@ -264,6 +265,7 @@ impl Th {
             stale: 0,
             quiet: 0,
             call: None,
+            call_depth: 0,
             tls: Vec::new(),
             tls_torn: false,
             yielder: std::ptr::null(),
@@ -1371,7 +1373,11 @@ pub fn call_begin(name: &'static str, property: &'static str, cap: u64) {
     if let Some(me) = current_tid() {
         with(|st| {
             let s = st.threads[me].steps;
-            st.threads[me].call = Some(CallInfo { start_steps: s, cap, property, name });
+            st.threads[me].call_depth += 1;
+            // Only the outermost bracket counts steps (user code inside a call may call the API again).
+            if st.threads[me].call_depth == 1 {
+                st.threads[me].call = Some(CallInfo { start_steps: s, cap, property, name });
+            }
             if st.cfg.trace {
                 st.trace.push(format!("t{} >> {}", me, name));
             }
@@ -1384,6 +1390,13 @@ pub fn call_end() -> u64 {
     if let Some(me) = current_tid() {
         with(|st| {
             let s = st.threads[me].steps;
+            st.threads[me].call_depth = st.threads[me].call_depth.saturating_sub(1);
+            if st.threads[me].call_depth > 0 {
+                if st.cfg.trace {
+                    st.trace.push(format!("t{} << (nested)", me));
+                }
+                return 0;
+            }
             let r = st.threads[me].call.take().map(|c| s - c.start_steps).unwrap_or(0);
             if st.cfg.trace {
                 st.trace.push(format!("t{} << ({} own steps)", me, r));
